@@ -11,7 +11,7 @@ ID = "C18"
 READY = True
 LEVEL = "exploration"
 WORKERS = {"quick": 8, "thorough": 16}
-BUDGET = {"quick": 60, "thorough": 420}
+BUDGET = {"quick": 150, "thorough": 420}
 MIN_NONTRIVIAL = {"quick": 200, "thorough": 1500}
 REQUIRED_HOOKS = ["rewrite", "parse", "evaluate:I", "evaluate:C", "clause-alone"]
 RULE = (
